@@ -125,4 +125,44 @@ ReplaceIsChild(d, s) ==
 C01Props(d, s) ==
   /\ MergeIsDocumented(d, s)
   /\ Preserved(d, s) /\ Concat(d, s) /\ ScalarWins(d, s) /\ DeleteRemoves(d, s) /\ ReplaceIsChild(d, s)
+---------------------------------------------------------------------------
+(* C07: no unresolved marker reaches the output *)
+Marker(x) == x = "$required" \/ DirectiveShaped(x)
+NoMarker(t) == AllStrings(t, LAMBDA x : ~Marker(x))
+
+
+---------------------------------------------------------------------------
+(* C11: $output selects exactly the marked subtrees, hides the excluded    *)
+(* the declarative statement: the selected subtrees, stripped and hidden *)
+RECURSIVE Strip(_), Hide(_), Marked(_)
+Strip(t) ==   \* remove every $output: true marker
+  IF IsMap(t) THEN LET o == IF Has(t, "$output") /\ At(t, "$output") = True THEN Del(t, "$output") ELSE t IN
+                   M([k \in Keys(o) |-> Strip(At(o, k))])
+  ELSE IF IsList(t) THEN LET q == SeqFilter(Elems(t), LAMBDA e : ~(IsMap(e) /\ e = Single("$output", True))) IN
+                         L([i \in DOMAIN q |-> Strip(q[i])])
+  ELSE t
+Hide(t) ==    \* remove everything under $output: false; Null when nothing is left
+  IF IsMap(t) THEN
+     IF Has(t, "$output") /\ At(t, "$output") = False THEN Null
+     ELSE LET ks == {k \in Keys(t) : ~IsNull(Hide(At(t, k)))} IN M([k \in ks |-> Hide(At(t, k))])
+  ELSE IF IsList(t) THEN
+     IF \E i \in DOMAIN Elems(t) : Elems(t)[i] = Single("$output", False) THEN Null
+     ELSE LET q == SeqFilter(Elems(t), LAMBDA e : ~IsNull(Hide(e))) IN L([i \in DOMAIN q |-> Hide(q[i])])
+  ELSE t
+Marked(t) ==  \* the bag of marked subtrees, as a sequence in some order
+  IF IsMap(t) THEN
+     LET ks   == SortedKeys(t)
+         kids == FoldRes(LAMBDA acc, k : Ok(acc \o Marked(At(t, k))), <<>>, ks).v
+     IN (IF Has(t, "$output") /\ At(t, "$output") = True THEN <<t>> ELSE <<>>) \o kids
+  ELSE IF IsList(t) THEN
+     LET real == SeqFilter(Elems(t), LAMBDA e : e \notin {Single("$output", True), Single("$output", False)})
+         kids == FoldRes(LAMBDA acc, e : Ok(acc \o Marked(e)), <<>>, real).v
+     IN kids \o (IF \E i \in DOMAIN Elems(t) : Elems(t)[i] = Single("$output", True) THEN <<t>> ELSE <<>>)
+  ELSE <<>>
+Expected11(d) ==
+  LET sel  == IF Len(Marked(d)) = 0 THEN <<d>> ELSE Marked(d)
+      outs == [i \in DOMAIN sel |-> Hide(Strip(sel[i]))]
+  IN SeqFilter(outs, LAMBDA o : ~IsNull(o))
+SameBag(p, q) == Len(p) = Len(q) /\ \A x \in SeqToSet(p) \cup SeqToSet(q) :
+                   Cardinality({i \in DOMAIN p : p[i] = x}) = Cardinality({i \in DOMAIN q : q[i] = x})
 =============================================================================
